@@ -251,11 +251,17 @@ def check_determinism(run: Run, cases):
                 run.violation("determinism", s, {"first": ref[s], "later": got})
             if "ok" in got and rng.random() < 0.3:
                 try:
+                    cached = parse(s)
+                    before = repr(cached)
                     r1 = [id(x) for x in doc.root.xpath(s)]
                     parse.cache_clear()
+                    fresh = parse(s)
                     r2 = [id(x) for x in doc.root.xpath(s)]
                     if r1 != r2:
                         run.violation("determinism", s, "cached and fresh expression evaluate differently")
+                    # the cached object, evaluated in between, still equals a fresh parse (by == and by repr)
+                    if not (cached == fresh and fresh == cached) or repr(cached) != repr(fresh) or repr(cached) != before:
+                        run.violation("determinism", s, "an expression object that was evaluated differs from a fresh parse of the same string")
                 except Exception:  # noqa: BLE001  evaluation errors are not C16's business
                     pass
     run.count("determinism", n)
